@@ -82,6 +82,8 @@ pub trait Prop: 'static {
     fn expected_probes() -> Vec<&'static str> {
         vec![]
     }
+    /// Called once per process before any execution (calibration etc.).
+    fn prepare() {}
     /// Extra coverage keys computed from merged stats.
     fn extra_coverage(_stats: &simrt::Stats) -> Value {
         json!({})
@@ -468,6 +470,7 @@ pub struct CheckOpts {
 
 /// Runs the whole check for property P. Returns the process exit code.
 pub fn check<P: Prop>(o: &CheckOpts) -> i32 {
+    P::prepare();
     let t0 = Instant::now();
     let n = o.runs_override.unwrap_or_else(|| P::runs(o.tier));
     let known = Arc::new(Known::load());
@@ -843,6 +846,7 @@ fn verify_replay_in_fresh_process(path: &std::path::Path, id: &str) -> bool {
 /// `simcheck replay <file>`: exit 1 + VIOLATION line when the recorded violation
 /// reproduces exactly; exit 2 on any mismatch.
 pub fn replay<P: Prop>(doc: &Value, path: &str) -> i32 {
+    P::prepare();
     let scn: P::Scn = match serde_json::from_value(doc.get("scenario").cloned().unwrap_or(Value::Null)) {
         Ok(s) => s,
         Err(e) => {
@@ -889,6 +893,7 @@ pub fn replay<P: Prop>(doc: &Value, path: &str) -> i32 {
 /// `simcheck digest <id>`: per-run (schedule, event log) hashes for the
 /// determinism proof across processes and worker counts.
 pub fn digest<P: Prop>(tier: Tier, verif_seed: u64, from: u64, n: u64) {
+    P::prepare();
     for idx in from..from + n {
         let seed = util::run_seed(verif_seed, P::ID, 0, idx);
         let mut r = SplitMix(seed);
